@@ -2,6 +2,7 @@
 `World::properties` (3-D and 2-D), single-property entry points.  Anchors: world.cc:314-590.
 -/
 import GwbVerif.Model.Features.Area
+import GwbVerif.Model.Features.Line
 namespace Gwb
 open Scalar
 variable {R : Type} [Scalar R]
@@ -9,16 +10,19 @@ variable {R : Type} [Scalar R]
 inductive Feature (R : Type)
   | area (f : AreaFeature R)
   | plume (f : PlumeFeature R)
+  | line (f : LineFeature R)
 
 def Feature.name : Feature R → String
   | .area f => f.name
   | .plume f => f.name
+  | .line f => f.name
 
 def Feature.apply {G : Type} [RandGen G R] (f : Feature R) (ctx : Ctx R) (q : Query R)
     (pes : List (Req × Nat)) (out : List R) : QM G (List R) :=
   match f with
   | .area a => a.apply ctx q pes out
   | .plume p => p.apply ctx q pes out
+  | .line l => l.apply ctx q pes out
 
 structure World (R : Type) where
   ctx : Ctx R
@@ -100,6 +104,15 @@ def World.props2 {G : Type} [RandGen G R] (w : World R) (pt : P2 R) (depth : R) 
     let p3 := w.lift2 c0 c1 pt
     let res ← w.props3 p3 depth ps
     liftE (rewalk2 (surfaceCoordConversions c0 c1) ps 0 res)
+
+/-- `World::distance_to_plane(point, depth, name)`: the first feature with that name; `(0, 0)` if there is none;
+features other than slabs and faults throw. -/
+def World.distanceToPlane (w : World R) (pt : P3 R) (depth : R) (name : String) : Except Err (R × R) :=
+  let q : Query R := ⟨pt, w.ctx.coord.toNatural pt, depth, w.ctx.gravity⟩
+  match w.features.find? (fun f => f.name == name) with
+  | none => .ok (0.0, 0.0)
+  | some (.line l) => l.distanceToPlane w.ctx q
+  | some _ => .error .other
 
 /-- `World::temperature(point, depth)` (3-D) -/
 def World.temperature3 {G : Type} [RandGen G R] (w : World R) (pt : P3 R) (depth : R) : QM G R := do
